@@ -320,3 +320,150 @@ def sensitivity(f, x, rng, rel=1e-5):
     S = trace_scale(x, y)
     d, msg = compare(yp, probes.blocks(y), None, S)
     return (d / rel) if msg is None else float("inf")
+
+
+# ---- model configurations (C07 / C09 / C13 / C14 / C20) --------------------------------------
+def bank_types(D, M, ks, group="B"):
+    return set(ref_bank(D, M, tuple(ks), (0, 1), group).data.keys())
+
+
+def reachable(in_types, target_types, btypes):
+    """Target types emitted by a ConvContract: those with an available filter type from some present input type."""
+    return [t for t in target_types if any(((s[0] + t[0]), (s[1] + t[1]) % 2) in btypes for s in in_types)]
+
+
+def type_flow(cfg):
+    """Simulates the type sets along the architecture. Returns (stable: bool, out_types in requested order
+    restricted to reachable, note). 'stable' = every ConvContract emits all its requested target types."""
+    D = cfg["D"]
+    bt = bank_types(D, 3, cfg["bank_ks"], cfg.get("group", "B")) - {tuple(t) for t in cfg.get("bank_drop", [])}
+    ut = bank_types(D, 2, cfg["bank_ks"], cfg.get("group", "B")) - {tuple(t) for t in cfg.get("bank_drop", [])}
+    ins = [tuple(t) for t, _ in cfg["in_sig"]]
+    outs = [tuple(t) for t, _ in cfg["out_sig"]]
+    mids = list(dict.fromkeys(ins + outs)) if cfg.get("mid") is None else [tuple(t) for t, _ in cfg["mid"]]
+    stable = True
+    notes = []
+
+    def step(cur, target, b=bt, what=""):
+        nonlocal stable
+        em = reachable(cur, target, b)
+        if set(em) != set(target):
+            stable = False
+            notes.append(f"{what}: {sorted(set(target) - set(em))} unreachable from {sorted(cur)}")
+        return em
+
+    cls = cfg["cls"]
+    if cls in ("ConvBlock", "ConvBlockPre"):
+        out = step(ins, outs, what="conv")
+        return stable, out, notes
+    if cls in ("ResNet", "DilResNet"):
+        cur = step(ins, mids, what="encoder0")
+        cur = step(cur, mids, what="encoder1")
+        for b in range(cfg["num_blocks"]):
+            start = cur
+            nconv = 7 if cls == "DilResNet" else cfg["num_conv"]
+            for c in range(nconv):
+                cur = step(cur, mids, what=f"block{b}.{c}")
+            if set(cur) != set(start):
+                stable = False
+                notes.append(f"residual sum of different type sets {sorted(start)} vs {sorted(cur)}")
+        cur = step(cur, mids, what="decoder0")
+        out = step(cur, outs, what="decoder1")
+        return stable, out, notes
+    if cls == "UNet":
+        cur = step(ins, mids, what="embed0")
+        for c in range(1, cfg["num_conv"]):
+            cur = step(cur, mids, what=f"embed{c}")
+        skips = []
+        for d in range(cfg["num_downsamples"]):
+            skips.append(cur)
+            for c in range(cfg["num_conv"]):
+                cur = step(cur, mids, what=f"down{d}.{c}")
+        for d in range(cfg["num_downsamples"]):
+            up = step(cur, mids, b=ut, what=f"up{d}")
+            skip = skips.pop()
+            if set(up) != set(skip):
+                stable = False
+                notes.append(f"U-Net skip concat: a type present in exactly one of the two branches ({sorted(set(up) ^ set(skip))})")
+            cur = list(dict.fromkeys(list(up) + list(skip)))
+            for c in range(cfg["num_conv"]):
+                cur = step(cur, mids, what=f"upconv{d}.{c}")
+        out = step(cur, outs, what="decode")
+        return stable, out, notes
+    raise ValueError(cls)
+
+
+def gen_model_cfg(rng, D, classes=("UNet", "UNet", "ResNet", "ResNet", "DilResNet", "ConvBlock", "ConvBlockPre"), stable_only=True, allow_norm=True, equivariant=True):
+    for _ in range(300):
+        cls = classes[int(rng.integers(len(classes)))]
+        norm = bool(rng.integers(0, 2)) and allow_norm and cls != "ConvBlock0"
+        kmax = 1 if (norm or D == 3) else 2
+        pool = [(k, p) for k in range(kmax + 1) for p in (0, 1)]
+        ins = [pool[i] for i in rng.choice(len(pool), size=int(rng.integers(1, 3)), replace=False)]
+        if cls == "ConvBlockPre":
+            outs = list(ins)
+        else:
+            outs = [pool[i] for i in rng.choice(len(pool), size=int(rng.integers(1, 3)), replace=False)]
+        cin = [int(v) for v in rng.permutation([1, 2, 3])[: len(ins)]]
+        cout = cin if cls == "ConvBlockPre" else [int(v) for v in rng.permutation([1, 2, 3])[: len(outs)]]
+        cfg = {
+            "cls": cls, "D": D, "equivariant": equivariant,
+            "in_sig": [[list(t), c] for t, c in zip(ins, cin)], "out_sig": [[list(t), c] for t, c in zip(outs, cout)],
+            "depth": int(rng.integers(1, 3)), "num_blocks": int(rng.integers(1, 3)) if cls != "DilResNet" else 1,
+            "num_conv": int(rng.integers(1, 3)), "num_downsamples": int(rng.integers(1, 3)) if D == 2 else 1,
+            "activation": [None, "relu", "gelu", "tanh"][int(rng.integers(4))], "norm": norm,
+            "preact": bool(rng.integers(0, 2)), "bias": ["auto", "mean", "scalar", False, True][int(rng.integers(5))],
+            "bank_ks": list(range(0, 2 * kmax + 1)), "torus": [bool(rng.integers(0, 2))] * D if rng.integers(0, 4) else [bool(v) for v in rng.integers(0, 2, size=D)],
+        }
+        if cls == "UNet":
+            cfg["N"] = [2 ** cfg["num_downsamples"] * int(rng.integers(1, 3))] * D if D == 2 else [4] * D
+            if rng.integers(0, 3) == 0 and D == 2:
+                cfg["N"] = [2 ** cfg["num_downsamples"] * int(v) for v in rng.integers(1, 3, size=D)]
+        else:
+            cfg["N"] = [int(v) for v in (rng.integers(3, 7, size=D) if D == 2 else rng.integers(3, 5, size=D))]
+            if rng.integers(0, 2):
+                cfg["N"] = [cfg["N"][0]] * D
+        if not equivariant:
+            cfg["kernel_size"] = 3
+        if equivariant:
+            stable, out, notes = type_flow(cfg)
+            if stable_only and not stable:
+                continue
+            cfg["stable"] = stable
+        return cfg
+    raise RuntimeError("no model cfg")
+
+
+def build_model(cfg, key_int):
+    import jax
+    import ginjax.models as models
+
+    D = cfg["D"]
+    in_sig, out_sig = signature(sig_of(cfg["in_sig"])), signature(sig_of(cfg["out_sig"]))
+    key = jax.random.PRNGKey(key_int)
+    kw = {"equivariant": cfg.get("equivariant", True), "use_bias": cfg["bias"]}
+    if kw["equivariant"]:
+        drop = {tuple(t) for t in cfg.get("bank_drop", [])}
+        bank = ref_bank(D, 3, tuple(cfg["bank_ks"]), (0, 1), cfg.get("group", "B"))
+        up = ref_bank(D, 2, tuple(cfg["bank_ks"]), (0, 1), cfg.get("group", "B"))
+        if drop:
+            import ginjax.geometric as geom
+
+            bank = geom.MultiImage({t: v for t, v in bank.data.items() if t not in drop}, D, True)
+            up = geom.MultiImage({t: v for t, v in up.data.items() if t not in drop}, D, True)
+        kw["conv_filters"] = bank
+    else:
+        kw["kernel_size"] = cfg.get("kernel_size", 3)
+    cls = cfg["cls"]
+    act = cfg["activation"]
+    if cls in ("ConvBlock", "ConvBlockPre"):
+        return models.ConvBlock(D, in_sig, out_sig, activation_f=act, use_group_norm=cfg["norm"], preactivation_order=(cls == "ConvBlockPre"), key=key, **kw)
+    if cls == "ResNet":
+        return models.ResNet(D, in_sig, out_sig, depth=cfg["depth"], num_blocks=cfg["num_blocks"], num_conv=cfg["num_conv"], activation_f=act, use_group_norm=cfg["norm"], preactivation_order=cfg["preact"], key=key, **kw)
+    if cls == "DilResNet":
+        return models.DilResNet(D, in_sig, out_sig, depth=cfg["depth"], num_blocks=cfg["num_blocks"], activation_f=act, use_group_norm=cfg["norm"], key=key, **kw)
+    if cls == "UNet":
+        if kw["equivariant"]:
+            kw["upsample_filters"] = up
+        return models.UNet(D, in_sig, out_sig, depth=cfg["depth"], num_downsamples=cfg["num_downsamples"], num_conv=cfg["num_conv"], activation_f=act, use_group_norm=cfg["norm"], key=key, **kw)
+    raise ValueError(cls)
